@@ -53,6 +53,10 @@ pub struct Hist {
     pub pattern: Vec<u8>,
     pub start: u64,
     pub ops: Vec<Op>,
+    /// simulated CPU for this run (0 none, 1 sse2, 2 sse4.1+ssse3, 3 everything the host has): the quartile / body code of
+    /// every backend meets the bucket counts only multi-GiB inputs produce.  The mask is process-global, so histories
+    /// with cpu != 3 are only generated when the batch runs single-threaded per process.
+    pub cpu: u8,
 }
 
 pub struct C11;
@@ -371,12 +375,23 @@ impl Scenario for C11 {
                 Op::Clone
             });
         }
-        Hist { variant, pattern, start, ops }
+        let cpu = r.below(4) as u8; // applied only when the batch runs one worker per process (the mask is process-global)
+        Hist { variant, pattern, start, ops, cpu }
     }
     fn execute(&self, h: &Hist, st: &mut Stats) -> Outcome {
         let mut fnv = Fnv::new();
         let mut states = Vec::new();
         st.hit("runs");
+        #[cfg(feature = "hooks")]
+        {
+            use tlsh::verif;
+            if crate::framework::single_threaded() {
+                let mask = [0, verif::CPU_SSE2, verif::CPU_SSE2 | verif::CPU_SSSE3 | verif::CPU_SSE4_1, verif::CPU_ALL][h.cpu as usize % 4];
+                verif::boot();
+                verif::set_cpu_mask(mask);
+                st.hit(["fault.reboot_on_cpu_without_simd", "fault.reboot_on_cpu_sse2_only", "fault.reboot_on_cpu_sse4.1_ssse3_no_avx2", "fault.reboot_on_cpu_avx2"][h.cpu as usize % 4]);
+            }
+        }
         #[cfg(feature = "hooks")]
         let res = guarded(|| with_kind!(h.variant, K => run::<K>(h, st, &mut fnv, &mut states)));
         #[cfg(not(feature = "hooks"))]
@@ -491,7 +506,7 @@ impl Scenario for C11 {
                 Op::Clone => "Clone()".into(),
             })
             .collect();
-        json!({"variant": VARIANT_NAMES[h.variant as usize], "variant_id": h.variant, "pattern": hex(&h.pattern), "start": h.start.to_string(), "ops": ops,
+        json!({"variant": VARIANT_NAMES[h.variant as usize], "variant_id": h.variant, "pattern": hex(&h.pattern), "start": h.start.to_string(), "ops": ops, "cpu": h.cpu,
                "legend": "the generator starts with the state of `start` bytes of the periodic stream; Cont(n) continues that stream by n bytes; Arb(seed,n) feeds n seeded random bytes"})
     }
     fn from_json(&self, v: &Value) -> Result<Hist, String> {
@@ -516,6 +531,7 @@ impl Scenario for C11 {
             pattern: unhex(v["pattern"].as_str().ok_or("pattern")?)?,
             start: v["start"].as_str().ok_or("start")?.parse::<u64>().map_err(|e| e.to_string())?,
             ops,
+            cpu: v["cpu"].as_u64().unwrap_or(3) as u8,
         })
     }
 }
